@@ -18,6 +18,7 @@ import (
 	"go/parser"
 	"go/token"
 	"io"
+	"reflect"
 	"strings"
 
 	"github.com/uber-go/gopatch/internal/zzverif/nd"
@@ -48,15 +49,16 @@ type c17Comment struct {
 }
 
 type c17State struct {
-	file     *ast.File
-	decls    []ast.Decl
-	isImport []bool
-	comments []c17Comment
-	touched  []bool // per declaration: some candidate site in it is an instance (solver term)
-	docLen   []int
-	any      bool
-	fout     *ast.File
-	cs       c17Case
+	file       *ast.File
+	decls      []ast.Decl
+	isImport   []bool
+	comments   []c17Comment
+	touched    []bool // per declaration: some candidate site in it is an instance (solver term)
+	docLen     []int
+	any        bool
+	origGroups []*ast.CommentGroup
+	fout       *ast.File
+	cs         c17Case
 }
 
 var c17 *c17State
@@ -92,6 +94,7 @@ func StubC17ParseFile(fset *token.FileSet, filename string, src any, mode parser
 	}
 	// ownership of every comment
 	c17FindPkgGroups(fset, f)
+	st.origGroups = append([]*ast.CommentGroup(nil), f.Comments...)
 	for _, cg := range f.Comments {
 		for _, c := range cg.List {
 			st.comments = append(st.comments, c17Comment{c: c, text: c.Text, owners: c17Owners(tf, f, st.decls, cg, c)})
@@ -257,6 +260,19 @@ func c17Check(st *c17State) {
 			last = k
 		}
 	}
+	// comments reachable through Doc/Comment fields of the tree's nodes (what
+	// the printer falls back to when the file has no comment list) are the
+	// input's own comment groups, never ones the patch brought along
+	origGroups := map[*ast.CommentGroup]bool{}
+	for _, oc := range st.comments {
+		_ = oc
+	}
+	for _, cg := range st.origGroups {
+		origGroups[cg] = true
+	}
+	c17NodeComments(reflect.ValueOf(st.fout.Decls), 0, func(cg *ast.CommentGroup) {
+		nd.Assert(origGroups[cg], name+": a node of the rewritten tree carries a comment that was not in the input: "+c17Short(cg.Text()))
+	})
 	for k, oc := range st.comments {
 		untouched := true
 		for _, o := range oc.owners {
@@ -373,6 +389,39 @@ func ReplayC17Comments() {
 	for text, must := range want {
 		if must && got[text] != 1 {
 			nd.Fail(cs.name + ": comment " + c17Short(text) + " of an untouched declaration is missing from the output")
+		}
+	}
+}
+
+// c17NodeComments calls f for every non-nil *ast.CommentGroup stored in a node field below v.
+func c17NodeComments(v reflect.Value, depth int, f func(*ast.CommentGroup)) {
+	if depth > 80 {
+		return
+	}
+	switch v.Kind() {
+	case reflect.Interface:
+		if !v.IsNil() {
+			c17NodeComments(v.Elem(), depth+1, f)
+		}
+	case reflect.Ptr:
+		if v.IsNil() {
+			return
+		}
+		switch x := v.Interface().(type) {
+		case *ast.CommentGroup:
+			f(x)
+			return
+		case *ast.Object, *ast.Scope:
+			return
+		}
+		c17NodeComments(v.Elem(), depth+1, f)
+	case reflect.Slice:
+		for i := 0; i < v.Len(); i++ {
+			c17NodeComments(v.Index(i), depth+1, f)
+		}
+	case reflect.Struct:
+		for i := 0; i < v.NumField(); i++ {
+			c17NodeComments(v.Field(i), depth+1, f)
 		}
 	}
 }
